@@ -19,15 +19,32 @@ def setup() -> int:
     return 0 if ok else 2
 
 
+def audit() -> int:
+    """coqchk -o over every property file (independent re-check of the compiled development; prints the axioms it relies on)."""
+    import subprocess
+
+    if setup() != 0:
+        return 2
+    mods = sorted(f"GeffProps.{p.stem}" for p in (common.COQ / "props").glob("C*.v"))
+    r = subprocess.run(["timeout", "3000", "coqchk", "-silent", "-o", "-Q", "theories", "Geff", "-Q", "props", "GeffProps", *mods],
+                       cwd=common.COQ, capture_output=True, text=True)
+    out = r.stdout + r.stderr
+    print(out[-1500:])
+    return 0 if r.returncode == 0 and "* Axioms: <none>" in out else 1
+
+
 def main() -> int:
     ap = argparse.ArgumentParser()
     ap.add_argument("prop", nargs="?")
     ap.add_argument("--tier", default=os.environ.get("VERIF_TIER", "quick"), choices=["quick", "thorough"])
     ap.add_argument("--replay")
     ap.add_argument("--setup", action="store_true")
+    ap.add_argument("--audit", action="store_true")
     a = ap.parse_args()
     if a.setup:
         return setup()
+    if a.audit:
+        return audit()
     if not a.prop:
         ap.error("property id required")
     seed = int(os.environ.get("VERIF_SEED", "0") or 0)
